@@ -196,6 +196,14 @@ pub open spec fn zk_ties(zk: CL03ZKPoK, idx: Seq<usize>) -> bool {
     &&& zk.range_proof_r.E@ == zk.proof_r.commitment.value@
 }
 
+/// with a trusted-party commitment and its key, the same-secrets proof for (C, C_trusted) must be present and accepted
+pub open spec fn zk_trusted_ok<CS: CLCiphersuite>(zk: CL03ZKPoK, c: CL03Commitment, ct: Option<&CL03Commitment>, pk: CL03PublicKey, bases: Seq<Integer>, cpk: Option<&CL03CommitmentPublicKey>, idx: Seq<usize>) -> bool {
+    match (ct, cpk) {
+        (Some(t), Some(k)) => zk.proof_C_Ctrusted is Some && n2c_accepts::<CS>(zk.proof_C_Ctrusted->Some_0, c, *t, pk, bases, *k, idx),
+        _ => true,
+    }
+}
+
 /// F11b: the per-attribute commitments (and the commitment to r) are commitments to the SAME m_i (and r) that C opens to.
 /// Nothing in the proof format lets a verifier establish this (the sub-proofs use independent blindings), so no code can
 /// discharge it: it is the contract-level statement of the protocol gap.
